@@ -164,6 +164,72 @@ Proof.
   - vm_compute. reflexivity.
 Qed.
 
+(** ** The legacy argument algorithm vs. the pylatexenc-3 arguments parser (strict mode)
+
+    Full statement aimed at (DESIGN 6/C16):
+      forall cx s pos a, a over {*,[,{} ->
+        legacy_parse_args a cx s pos  ~  run (TArgs (map std_spec a)) at pos
+      (same argument nodes, same end position, fail iff fail).
+    As stated it is FALSE of the code by design of the compatibility layer (N1: single-token
+    macro arguments get nodeargd = None; N2: the legacy algorithm swallows the "unexpected
+    closing brace" error and goes on with an empty chars node), so the relation [agree] is
+    modulo N1 / N2.  Proved ([_partial]):
+    - [C16_legacy_args_equiv_partial]: the legacy loop against the pylatexenc-3 arguments parser
+      written as the fold of standard-argument parsers it is ([new_args_loop]; every argument
+      with the same fuel), for ALL argument strings over the three characters, all strings, all
+      positions, by induction over the argument string; it rests on [expr_shape] /
+      [group_shape] (a parsed expression / group ends exactly at the reader position — the
+      content of "re-tokenizing from p = np + nl is threading one reader") and on four explicit
+      premises about single tokens / the reader ([star_premises], [reader_premises]);
+    - [C16_legacy_args_equiv_run_partial]: the same against [run (TArgs ...)] itself, with fuel
+      monotonicity of the frozen parser model as a further explicit premise.
+    Token parse errors of the look-ahead are not compared (see [agree]). *)
+Theorem C16_legacy_args_equiv_partial : forall s cx ps,
+  star_premises s cx ps -> reader_premises s cx ps ->
+  forall F a p, forallb argchar_ok a = true ->
+    agree (new_args_loop s cx F ps a p [])
+          (legacy_parse_args_f s false cx F ps a false None p).
+Proof. exact legacy_args_equiv_fold. Qed.
+
+Theorem C16_legacy_args_equiv_run_partial : forall s cx ps,
+  fuel_monotone s cx -> star_premises s cx ps -> reader_premises s cx ps ->
+  forall F F' a p, forallb argchar_ok a = true ->
+    new_args_loop s cx F ps a p [] <> OutOfFuel ->
+    run s false cx F' (TArgs ps (map std_spec a) [] p) <> OutOfFuel ->
+    agree (run s false cx F' (TArgs ps (map std_spec a) [] p))
+          (legacy_parse_args_f s false cx F ps a false None p).
+Proof. exact legacy_args_equiv_run. Qed.
+
+(** a parsed expression / group ends exactly where the reader stands *)
+Theorem C16_expr_ends_at_reader : forall s cx f ps acc pos n p,
+  run s false cx f (TExpr ps true true false true acc pos) = Ok (ONode (Some n)) p ->
+  (forall x, In (Some x) acc -> is_nlist x = false) ->
+  is_nlist n = false /\ node_end n = Some p /\ exists np, node_pos n = Some np.
+Proof. exact expr_shape. Qed.
+Theorem C16_group_ends_at_reader : forall s cx f ps d opt aps pos n p,
+  run s false cx f (TGroup ps d opt aps pos) = Ok (ONode (Some n)) p ->
+  exists p0 m od cd body, n = NGroup p0 p m od cd body.
+Proof. exact group_shape. Qed.
+
+(** non-vacuity of the argument equivalence: "*[x]\bar{y}z" with the argument string *[{{ —
+    the run of the real arguments parser, the fold and the legacy algorithm, evaluated:
+    same four argument nodes modulo N1 (the macro \bar given as a single token), same end 11 *)
+Example C16_legacy_args_nonvacuous :
+  let s := [42; 91; 120; 93; 92; 98; 97; 114; 123; 121; 125; 122]%N in
+  let cx := Gen.GenWalkerCtx.default_ctx in
+  let ps := walker_state cx in
+  let a := [42; 91; 123; 123]%N in
+  exists nodes,
+    run s false cx (parse_fuel s) (TArgs ps (map std_spec a) [] 0) = Ok (OArgs (Some ([], nodes))) 11
+    /\ new_args_loop s cx (parse_fuel s) ps a 0 [] = Ok (OArgs (Some ([], nodes))) 11
+    /\ legacy_parse_args s false cx ps a false None 0 = LOk (map norm_arg nodes, 11)
+    /\ map norm_arg nodes <> nodes /\ length nodes = 4.
+Proof.
+  cbv zeta. eexists. split; [vm_compute; reflexivity|].
+  split; [vm_compute; reflexivity|]. split; [vm_compute; reflexivity|].
+  split; [vm_compute; discriminate | vm_compute; reflexivity].
+Qed.
+
 Print Assumptions C16_get_token.
 Print Assumptions C16_get_token_brackets.
 Print Assumptions C16_get_latex_nodes.
@@ -182,3 +248,7 @@ Print Assumptions C16_get_latex_maybe_optional_arg.
 Print Assumptions C16_args_spellings.
 Print Assumptions C16_args_spellings_all.
 Print Assumptions C16_std_macro_optnum.
+Print Assumptions C16_legacy_args_equiv_partial.
+Print Assumptions C16_legacy_args_equiv_run_partial.
+Print Assumptions C16_expr_ends_at_reader.
+Print Assumptions C16_group_ends_at_reader.
